@@ -62,7 +62,12 @@ type LexGrammar struct {
 	Defs     Defs
 	DefNames []string
 	DefPats  map[string]string
-	Rules    []LexRule
+	// Decls are tokens declared without a pattern ("error:") in front of all rules: they
+	// take token ids but no rule numbers.
+	Decls []string
+	Rules []LexRule
+	// Bound is informational: the largest code point the generator allowed itself (0: none).
+	Bound rune
 }
 
 // Mode returns the regexp parsing mode of the grammar.
@@ -130,6 +135,9 @@ func (g *LexGrammar) Text(scopes bool) string {
 		fmt.Fprintf(&b, "%s = %s\n", n, tmPattern(g.DefPats[n]))
 	}
 	b.WriteString("\n")
+	for _, d := range g.Decls {
+		fmt.Fprintf(&b, "%s:\n", d)
+	}
 	scText := func(scs []int) string {
 		var ns []string
 		for _, s := range scs {
@@ -284,6 +292,11 @@ func (g *LexGrammar) effSCs(r *LexRule) []int {
 func NewLexModel(g *LexGrammar) *LexModel {
 	m := &LexModel{G: g, TokenID: map[string]int{}}
 	mode := g.Mode()
+	for _, d := range g.Decls {
+		if _, ok := m.TokenID[d]; !ok && d != "invalid_token" && d != "eoi" {
+			m.TokenID[d] = 2 + len(m.TokenID)
+		}
+	}
 	for _, r := range g.Rules {
 		if _, ok := m.TokenID[r.Token]; !ok {
 			m.TokenID[r.Token] = 2 + len(m.TokenID)
